@@ -4,6 +4,7 @@ import ast
 from ..index import AnalysisError, attr_chain, norm, own_nodes
 from ..query import calls_in, call_name, is_value_yield
 from ..condeval import check_cond
+from .common import borrowed
 from .common import (TLSCONN, TLSREC, RECLAYER, nodes_with_call, consumes_of, dead_edge_labels,
                      must_pass, rule_consume)
 from . import c01
@@ -264,4 +265,5 @@ RULES = [
     ("C14.DRAIN", "quick", rule_drain),
     ("C14.ASM", "quick", rule_asm),
     ("C14.SEAMS", "quick", rule_seams),
+    ("C14.POSTFAIL", "quick", borrowed("c17", "rule_postfail", "C17.POSTFAIL", "C14.POSTFAIL")),
 ]
